@@ -372,7 +372,13 @@ fn builtin_output_error(ctx: &Ctx) {
 /// exactly once and sees the failing status, which is also the exit status of the process.
 fn stock_shell_aborts(ctx: &Ctx) {
     // (name, command, exact status if pinned, aborts the shell?)
-    const CASES: [(&str, &str, Option<i32>, bool); 17] = [
+    const CASES: [(&str, &str, Option<i32>, bool); 21] = [
+        // exempt contexts of errexit, with the failing command spelled through an alias (defined on
+        // the first line of the script) or inside a subshell / function: execution goes on
+        ("errexit-exempt:negated-alias", "set -e; ! chk; ! chk | chk", None, false),
+        ("errexit-exempt:and-or-alias", "set -e; chk && :; chk || :", None, false),
+        ("errexit-exempt:condition-subshell", "set -e; if (chk; /bin/true); then :; fi; until (chk; /bin/true); do :; done", None, false),
+        ("errexit-exempt:negated-group", "set -e; ! { chk; /bin/true; }; ! (chk; /bin/false; chk)", None, false),
         ("assignment-error", "ro=2", None, true),
         ("special-builtin-error:export", "export ro=2", None, true),
         ("special-builtin-error:dot", ". /nonexistent/file", None, true),
@@ -422,7 +428,7 @@ fn stock_shell_aborts(ctx: &Ctx) {
                 "trap '/bin/echo EXIT $?' EXIT",
             ][form];
             let ignore_at_start = matches!(form, 1 | 2 | 4);
-            let script = format!("readonly ro=1\n{trap_line}\n/bin/echo before\n{}\n/bin/echo after\n", cxt.replace("CMD", cmd));
+            let script = format!("alias chk=false\nreadonly ro=1\n{trap_line}\n/bin/echo before\n{}\n/bin/echo after\n", cxt.replace("CMD", cmd));
             let dir = std::env::temp_dir().join(format!("verif-c10s-{}-{i}", std::process::id()));
             let _ = std::fs::remove_dir_all(&dir);
             if std::fs::create_dir_all(&dir).is_err() || std::fs::write(dir.join("s.sh"), &script).is_err() {
